@@ -1171,3 +1171,42 @@ def rule_verify_wiring(ctx, prop):
                                   f.loc(s.get("sp")), cfg)
         rep.floor("OutputVerification choices", n, 2, cfg)
     return rep
+
+
+def rule_panic_mode(ctx, prop):
+    """worker panics are survivable only if they unwind: the build manifest must not select panic = abort"""
+    import os
+    rep = Report(prop, "R-PANICMODE", "no Cargo profile of the workspace builds with panic = \"abort\": a panicking formatter "
+                                      "thread must unwind so that the pool respawns it and panic_count() turns into status 2")
+    root = getattr(ctx, "repo", None) or "/repo"
+    manifests = []
+    for dp, dn, fn in os.walk(root):
+        dn[:] = [d for d in dn if d not in ("target", ".git", "node_modules")]
+        for n in fn:
+            if n == "Cargo.toml" or (n == "config.toml" and dp.endswith(".cargo")):
+                manifests.append(os.path.join(dp, n))
+    rep.anchor(bool(manifests), "Cargo.toml of the workspace")
+    for m in sorted(manifests):
+        try:
+            txt = open(m).read()
+        except OSError:
+            continue
+        section = ""
+        bad = []
+        for line in txt.splitlines():
+            ln = line.split("#", 1)[0].strip()
+            if ln.startswith("["):
+                section = ln.strip("[]").strip()
+                continue
+            mm = re.match(r"^(?:profile\.[\w.-]+\.)?panic\s*=\s*[\"']([\w-]+)[\"']", ln) if (section.startswith("profile") or ln.startswith("profile.")) else None
+            if mm and mm.group(1) == "abort":
+                bad.append(section or ln.split("=")[0].strip())
+            if re.search(r"-C\s*panic=abort|panic=abort", ln) and "rustflags" in ln:
+                bad.append("rustflags")
+        rel = os.path.relpath(m, root)
+        rep.inst(f"{rel} keeps panic = unwind", {"profiles_with_abort": bad}, None, ok=not bad)
+        for b in bad:
+            rep.violation(f"{rel} panic-abort-profile {b}",
+                          f"{rel}: [{b}] sets panic = \"abort\": a file whose formatting panics kills the whole process (SIGABRT, "
+                          f"status 134) - the files queued behind it stay unformatted and the status is not 2", rel, None)
+    return rep
